@@ -24,7 +24,7 @@ func TestC02(t *testing.T) {
 
 var c03Cfg = SGenCfg{PingsPct: 25, RFs: allRF, MinOps: 5, MaxOps: 28, FaultPct: 35, SlowFaults: false, RestFail: true,
 	W: map[string]int{"write": 24, "sync": 6, "unmap": 4, "read": 4, "readd": 14, "add": 4, "promote": 8, "remove": 10,
-		"pingfail": 4, "nodedrop": 3, "snapshot": 8, "boot": 2, "reconnect": 3, "setmode": 4, "setmodeseq": 2}}
+		"pingfail": 4, "nodedrop": 3, "snapshot": 8, "boot": 2, "reconnect": 3, "setmode": 4, "setmodeseq": 2, "ctlrevert": 4}}
 
 func TestC03(t *testing.T) {
 	runStackProperty(t, "C03", "TestC03", func(rt *rapid.T) SProgram { return GenSProgram(rt, c03Cfg) },
@@ -59,7 +59,7 @@ func TestC05(t *testing.T) {
 
 var c18Cfg = SGenCfg{PingsPct: 25, RFs: allRF, MinOps: 5, MaxOps: 30, FaultPct: 35, SlowFaults: false, AllowDup: true, RestFail: true,
 	W: map[string]int{"write": 18, "sync": 3, "read": 10, "readd": 10, "add": 14, "promote": 8, "remove": 10,
-		"pingfail": 3, "nodedrop": 3, "snapshot": 6, "setmode": 6, "setmodeseq": 5, "boot": 4, "reconnect": 6, "errio": 3, "addrace": 5}}
+		"pingfail": 3, "nodedrop": 3, "snapshot": 6, "setmode": 6, "setmodeseq": 5, "boot": 4, "reconnect": 6, "errio": 3, "addrace": 5, "ctlrevert": 3}}
 
 func TestC18(t *testing.T) {
 	runStackProperty(t, "C18", "TestC18", func(rt *rapid.T) SProgram { return GenSProgram(rt, c18Cfg) },
@@ -120,4 +120,30 @@ func TestC07Window(t *testing.T) {
 		func(p SProgram, x *SExec) bool {
 			return x.Labels["rebuild:promoted"] > 0 && x.Labels["rebuild:writes-inside-lunmap-window"] > 0
 		})
+}
+
+// ---- C06 (revert of the volume through the controller) ----------------------------
+
+var c06VolCfg = SGenCfg{RFs: []int{1, 2, 3, 3}, MinOps: 5, MaxOps: 22, FaultPct: 10, Blocks: 12, RestFail: true, NoSpare: true, FillPct: 50,
+	W: map[string]int{"write": 36, "snapshot": 22, "ctlrevert": 20, "read": 8, "readd": 9, "remove": 3, "nodedrop": 2, "ctldelsnap": 2}}
+
+// TestC06Volume — Controller.Revert: the volume and every RW replica read back
+// exactly the image the snapshot captured; replicas that fail the request are
+// marked failed; later snapshots, rebuilds and reverts go on from there.
+func TestC06Volume(t *testing.T) {
+	runStackProperty(t, "C06", "TestC06Volume", func(rt *rapid.T) SProgram { return GenSProgram(rt, c06VolCfg) },
+		func(p SProgram, x *SExec) bool { return x.Labels["ctlrevert:ok"] > 0 && x.Labels["write:acked"] > 0 })
+}
+
+// ---- C13 (checkpoint across volume reverts) -------------------------------------------
+
+// The race programs above have no volume revert (the writers' stamps assume a
+// history that only moves forward); the checkpoint clauses are checked across
+// reverts, rebuilds and departures by programs without racing writers.
+var c13RevertCfg = SGenCfg{RFs: []int{1, 2, 2, 3}, MinOps: 5, MaxOps: 20, FaultPct: 0, RestFail: true, Blocks: 12, NoSpare: true,
+	W: map[string]int{"write": 30, "snapshot": 20, "ctlrevert": 14, "readd": 16, "remove": 4, "nodedrop": 3, "promotecp": 6, "read": 4, "snaprace": 3}}
+
+func TestC13Revert(t *testing.T) {
+	runStackProperty(t, "C13", "TestC13Revert", func(rt *rapid.T) SProgram { return GenSProgram(rt, c13RevertCfg) },
+		func(p SProgram, x *SExec) bool { return x.Labels["ctlrevert:ok"] > 0 && x.Labels["promote:ok"] > 0 })
 }
